@@ -394,7 +394,12 @@ impl<'a> Gen<'a> {
                 self.id(&v.name, Binding::Var(pi, k), true, "param-start");
             }
             self.t(":", "in-sig");
-            self.emit_type_ref(&v.ty, "after-colon");
+            if v.anon_dims.is_empty() {
+                self.emit_type_ref(&v.ty, "after-colon");
+            } else {
+                self.emit_dims(&v.anon_dims, "after-colon");
+                self.emit_type_ref(&v.ty, "in-type");
+            }
         }
         self.t(")", "in-sig");
         self.t("{", "in-sig");
@@ -487,6 +492,7 @@ pub fn gen(rng: &mut Rng, max_types: usize, max_procs: usize, max_depth: usize) 
         let mut vars = vec![];
         let mut local_names: Vec<String> = vec![];
         let n_params = if i == main_at { 0 } else { g.rng.below(4) };
+        let mut forced_type: Option<usize> = None;
         for _ in 0..n_params {
             let proc_names: Vec<String> = global_names.iter().filter(|n| n.starts_with('p')).cloned().collect();
             let vname = if g.rng.chance(1, 6) && !proc_names.is_empty() {
@@ -497,17 +503,30 @@ pub fn gen(rng: &mut Rng, max_types: usize, max_procs: usize, max_depth: usize) 
                 local_name(g.rng, &mut local_names)
             };
             // sometimes a parameter is named like a global type (parameter types resolve globally, so later
-            // parameters may still use that type; later LOCAL declarations may not: see below)
-            let vname = if nt > 0 && g.rng.chance(1, 10) {
-                let tn = g.p.types[g.rng.below(nt)].name.clone();
-                if local_names.contains(&tn) { vname } else { local_names.push(tn.clone()); tn }
+            // parameters may still use that type — and often do here; later LOCAL declarations may not: see below)
+            let mut named_like: Option<usize> = None;
+            let vname = if nt > 0 && g.rng.chance(1, 6) {
+                let ti = g.rng.below(nt);
+                let tn = g.p.types[ti].name.clone();
+                if local_names.contains(&tn) { vname } else { local_names.push(tn.clone()); named_like = Some(ti); tn }
+            } else if g.rng.chance(1, 40) && !local_names.contains(&"int".to_string()) {
+                local_names.push("int".to_string());
+                "int".to_string()
             } else {
                 vname
             };
-            let ty = if nt > 0 && g.rng.chance(1, 2) { Ty::Named(g.rng.below(nt)) } else { Ty::Int };
-            let is_array = !g.dims_of(&ty).is_empty();
+            let ty = match forced_type.take() {
+                Some(ti) if g.rng.chance(2, 3) => Ty::Named(ti),
+                _ => if nt > 0 && g.rng.chance(1, 2) { Ty::Named(g.rng.below(nt)) } else { Ty::Int },
+            };
+            if named_like.is_some() {
+                forced_type = named_like;
+            }
+            // an anonymous array type written in place: `ref a: array [2] of T`
+            let anon_dims: Vec<u32> = if g.rng.chance(1, 6) { vec![1 + g.rng.below(4) as u32] } else { vec![] };
+            let is_array = !g.dims_of(&ty).is_empty() || !anon_dims.is_empty();
             let is_ref = is_array || g.rng.chance(1, 3);
-            vars.push(VarDef { name: vname, ty, is_ref, is_param: true, anon_dims: vec![] });
+            vars.push(VarDef { name: vname, ty, is_ref, is_param: true, anon_dims });
         }
         for _ in 0..g.rng.below(4) {
             let vname = local_name(g.rng, &mut local_names);
